@@ -61,8 +61,25 @@ def _hang(evs):
     return None
 
 
+def _mc(run):
+    """algorithm layer: the resolver loop + dedupePaths as a state machine over every tree x request list in scope,
+    judged by the same FollowRef clauses as the recorded executions"""
+    from vlib import Inconclusive
+    cfg = "ResolverMC_thorough.cfg" if run.thorough else "ResolverMC.cfg"
+    run.tlc_mc("ResolverMC", cfg, label="alg/Resolver (current code): terminates within the step bound; result satisfies FollowRef up to the recorded memoisation finding",
+               timeout=2400, xmx="12g", xss="256m")
+    run.tlc_mc("ResolverMC", "ResolverMC_dedupe.cfg", label="alg/Resolver dedupe scope (names a, a-b, a/b): no element inside another", xss="256m")
+    for cfg, inv, what in (("ResolverMC_memofinal.cfg", "Terminates", "visited set consulted for the last component only (seeded variant) must not terminate"),
+                           ("ResolverMC_dedupe_pinned.cfg", "ResultOK", "pinned dedupePaths (neighbour comparison) must leave a/b next to a"),
+                           ("ResolverMC_witness.cfg", "NeverExplained", "the memoisation finding must exist at model level (non-vacuity of the explanation test)")):
+        r = run.tlc_mc("ResolverMC", cfg, label="sanity: " + what, expect_error=True, xss="256m")
+        if inv + " is violated" not in r["out"]:
+            raise Inconclusive("ResolverMC sanity configuration %s was not rejected: the model is vacuous" % cfg)
+
+
 def check(run):
     run.build()
+    _mc(run)
     trace, st = run.drive("follow")
     tr = run.tlc_trace("WalkTrace", trace)
     tr["failed"] = [f for f in tr["failed"] if any(c.startswith("C18.") for c in f["clauses"])]
